@@ -139,15 +139,22 @@ Theorem C19_memmap_old_order_rule_refuted : exists r,
 Proof. exact old_order_rule_refuted. Qed.
 Print Assumptions C19_memmap_old_order_rule_refuted.
 
-(* ArrayMemmapForwardReducer.__call__ (threshold test translated): an array without a backing memmap is dumped
-   to a temporary memmap iff it has no object dtype, a threshold is set and nbytes is STRICTLY above it; an array
+(* ArrayMemmapForwardReducer.__call__ (eligibility test translated, whichever dtype attribute it consults): an array
+   without a backing memmap is dumped to a temporary memmap iff its dtype has no object (dtype.hasobject), a threshold is set and nbytes is STRICTLY above it; an array
    backed by a memmap is always re-mapped *)
-Theorem C19_auto_memmap_threshold : forall has_backing hasobject max_nbytes nbytes,
-  exists rt, forward_route has_backing hasobject max_nbytes nbytes = Ok rt /\
+Theorem C19_auto_memmap_threshold : forall has_backing hasobject dtype_kind max_nbytes nbytes,
+  exists rt, forward_route has_backing hasobject dtype_kind max_nbytes nbytes = Ok rt /\
   (rt = RReduceBacked <-> has_backing = true) /\
   (rt = RDumpTemp <-> has_backing = false /\ hasobject = false /\ exists t, max_nbytes = Some t /\ t < nbytes).
 Proof. exact forward_route_spec. Qed.
 Print Assumptions C19_auto_memmap_threshold.
+
+(* "object dtype" is numpy's hasobject, not kind == 'O': a structured dtype (kind 'V') with an object field at
+   any depth is pickled whatever its size and the threshold -- a dumped file of it could not be memory-mapped *)
+Theorem C19_object_field_never_memmapped : forall max_nbytes nbytes,
+  forward_route false true 86 max_nbytes nbytes = Ok RPickle.
+Proof. exact object_field_never_memmapped. Qed.
+Print Assumptions C19_object_field_never_memmapped.
 
 (* array types and payload kinds: ndarray and memmap come back as ndarray (memmap under a memory-mapped load);
    with __array_prepare__ a subclass would be rebuilt; other subclasses are not intercepted; object arrays are
